@@ -183,7 +183,7 @@ impl<'a> Net<'a> {
                 continue;
             }
             // signatures the model has to know about
-            let fake = InFlight { due: 0, from: w.from, re: w.re.clone(), mt: w.msg.message_type().clone(), ro: w.msg.read_only(), ip: w.msg.requester_ip(), seq: 0 };
+            let fake = InFlight { due: 0, from: w.from, re: w.re.clone(), mt: w.msg.message_type().clone(), ro: w.msg.read_only(), ip: w.msg.requester_ip(), seq: 0, tid: None };
             for k in known_signatures(&fake) {
                 if self.known.insert(k.clone()) {
                     self.run(k);
